@@ -63,9 +63,17 @@ func (r *atomRecorder) emit(e AtomEvent) {
 	r.mu.Unlock()
 }
 
+// vecStyle: the atoms of the running scenario hold GROWING vectors (style "vec"): a value is abstracted to its length
+var vecStyle int32
+
 func intOf(v types.MalType) int {
 	if i, ok := v.(int); ok {
 		return i
+	}
+	if atomic.LoadInt32(&vecStyle) == 1 {
+		if vec, ok := v.(types.Vector); ok {
+			return len(vec.Val)
+		}
 	}
 	// "seq" style: the atom holds [n] (encoded n) or (n) (encoded 1000+n): values that are = but distinguishable
 	if vec, ok := v.(types.Vector); ok && len(vec.Val) == 1 {
@@ -136,6 +144,20 @@ var atomOpKinds = []string{"deref", "reset", "swapinc", "swapinc", "swapfail", "
 func atomOpSrc(o atomOp, style string) string {
 	a := fmt.Sprintf("a%d", o.Atom)
 	b := fmt.Sprintf("a%d", o.B)
+	if style == "vec" {
+		// the atom holds a vector that every swap! extends with conj by an element no other operation uses
+		// (o.V, unique in the scenario): abstract value = length; at the end all elements must be distinct
+		switch o.Op {
+		case "deref":
+			return "(count @" + a + ")"
+		case "swapfail":
+			return fmt.Sprintf("(count (swap! %s (fn [v] (throw \"update failed\"))))", a)
+		case "print":
+			return fmt.Sprintf("(pr-str %s)", a)
+		default:
+			return fmt.Sprintf("(count (swap! %s conj %d))", a, o.V)
+		}
+	}
 	if style == "seq" {
 		lit := func(enc int) string {
 			if enc >= 1000 {
@@ -251,6 +273,9 @@ func runAtomScenario(rec *atomRecorder, sc atomScenario) (hang string, infra err
 		if sc.Style == "seq" {
 			init = "[0]"
 		}
+		if sc.Style == "vec" {
+			init = "[]"
+		}
 		ast, _ := lisp.READ(fmt.Sprintf("(def a%d (atom %s))", i, init), nil, ns)
 		v, e := lisp.EVAL(ctx, ast, ns)
 		if e != nil {
@@ -263,6 +288,11 @@ func runAtomScenario(rec *atomRecorder, sc atomScenario) (hang string, infra err
 		if _, e := lisp.EVAL(ctx, ast, ns); e != nil {
 			return "", e
 		}
+	}
+	if sc.Style == "vec" {
+		atomic.StoreInt32(&vecStyle, 1)
+	} else {
+		atomic.StoreInt32(&vecStyle, 0)
 	}
 	rec.emit(AtomEvent{Ev: "begin", N: sc.NAtoms})
 	// pre-read all operations
@@ -300,6 +330,18 @@ func runAtomScenario(rec *atomRecorder, sc atomScenario) (hang string, infra err
 	go func() { wg.Wait(); close(done) }()
 	select {
 	case <-done:
+		if sc.Style == "vec" {
+			// no update lost or overwritten: every element of the final vectors is distinct
+			for at, id := range rec.atoms {
+				if vec, ok := atomPeek(at).(types.Vector); ok {
+					seen := map[types.MalType]bool{}
+					for _, e := range vec.Val {
+						seen[e] = true
+					}
+					rec.emit(AtomEvent{Ev: "final", Atom: id, Val: len(seen), N: len(vec.Val)})
+				}
+			}
+		}
 		return "", nil
 	case <-time.After(10 * time.Second):
 		// structural verdict: where are the goroutines parked?
@@ -358,6 +400,21 @@ func cmdAtoms(args []string) {
 		sc := randomAtomScenario(rnd, *maxThreads, *maxOps)
 		if i%3 == 2 {
 			sc.Style = "map"
+		}
+		if i%6 == 4 {
+			// growing vectors: every update is (swap! a conj <unique element>)
+			sc.Style = "vec"
+			for t := range sc.Scripts {
+				for k := range sc.Scripts[t] {
+					o := &sc.Scripts[t][k]
+					o.V = 1000*(t+1) + k
+					switch o.Op {
+					case "deref", "swapfail", "print":
+					default:
+						o.Op = "swapinc"
+					}
+				}
+			}
 		}
 		if i%6 == 1 {
 			// values that are = but distinguishable (list / vector): ops restricted to deref, reset, inc, flip, fail
